@@ -549,22 +549,41 @@ def ft4(F, R):
             rng_r = find_sub(env["$src"], ("call", "RangeInclusive::new", ["$a", "$b"]))
             rng_w = find_sub(dst, ("call", "RangeInclusive::new", ["$a", "$b"]))
             R.require(rng_r is not None and rng_w is not None and rng_r == rng_w, fn, "fat32:same-range", "read and write of the FAT32 entry use different byte ranges", fn.loc(b))
-    # special value tables: switch on new_value.0
+    # special value tables, decided by value: for each special cluster number (and one ordinary one) the tests of new_value are
+    # decided and the definition of the entry that reaches the write is read off - match, if-chain, helper function alike
+    from .specialise import specialise_on
+    NV = 4      # update_fat(self, block_cache, cluster, new_value)
+    is_nv = lambda q: (q[:2] == ("arg", NV)) or (q[0] == "place" and strip_refs(q[1])[:2] == ("arg", NV) and tuple(e for e in q[2] if e != "*") == ("0",))
     for arm, want in (("Fat16", {0xFFFFFFF6: 0xFFF6, 0xFFFFFFF7: 0xFFF7, 0: 0, 0xFFFFFFFF: 0xFFFF}), ("Fat32", {0xFFFFFFF6: 0x0FFFFFF6, 0xFFFFFFF7: 0x0FFFFFF7, 0: 0})):
         got = {}
         other_ok = False
-        for b in arms[arm]:
-            t = fn.term(b)
-            if t["k"] == "SwitchInt" and "new_value" in tstr(fn.term_of_operand(t["discr"], b)):
-                for i, (tgt, lab) in enumerate(fn.succ(b)):
-                    # the assigned constant in the target block
-                    for s in fn.blocks[tgt]["stmts"]:
-                        if s["k"] == "Assign" and not s["p"]["proj"]:
-                            v = fn.term_of_rvalue(s["rv"], tgt)
-                            if lab[1] == "otherwise":
-                                other_ok = "new_value" in tstr(v)
-                            elif v[0] == "c":
-                                got[lab[1]] = v[1]
+        wr = [(b, t) for b, t in fn.calls() if b in arms[arm] and (callee_of(t) or "").endswith(("ByteOrder::write_u16", "ByteOrder::write_u32"))]
+        evs = []
+        for b, t in wr:
+            for q in subterms(fn.term_of_operand(t["args"][1], b)):
+                if q[0] == "var" and len([d for d in fn.defs().get(q[1], []) if d[0] == "assign"]) >= 2 and q[1] not in [e[0] for e in evs]:
+                    evs.append((q[1], b))
+        if len(evs) == 1:
+            ev, wb = evs[0]
+            from .specialise import compared_constants
+            extra_keys = sorted(k_ for k_ in compared_constants(fn, is_nv) if k_ not in want and k_ != 0x1234)
+            other_all = True
+            for key in list(want) + [0x1234] + extra_keys:
+                cut = specialise_on(fn, is_nv, key)
+                rs = fn.reach([0], cut_edges=cut)
+                vals = []
+                for d in fn.defs().get(ev, []):
+                    if d[0] == "assign" and d[1] in rs and wb in fn.reach([d[1]], cut_edges=cut):
+                        vals.append(fn.term_of_rvalue(d[3], d[1]))
+                if key not in want:
+                    # an ordinary cluster number - and every other number the code compares new_value with - passes through
+                    okk = len(vals) == 1 and vals[0][0] != "c" and has_sub(vals[0], lambda q: q[:2] == ("arg", NV))
+                    other_all = other_all and okk
+                    if not okk and len(vals) == 1 and vals[0][0] == "c":
+                        got[key] = vals[0][1]
+                    other_ok = other_all
+                elif len(vals) == 1 and vals[0][0] == "c":
+                    got[key] = vals[0][1]
         R.require(got == want and other_ok, fn, arm + ":special-values", "%s special-value table is %s, expected %s (and pass-through otherwise)" % (arm, {hex(k): hex(v) for k, v in got.items()}, {hex(k): hex(v) for k, v in want.items()}), fn.loc(min(arms[arm])) if arms[arm] else fn.loc(0))
 
 
